@@ -63,11 +63,45 @@ def layout? : Sexp → Option Layout
   | .atom "wide" => some .wide
   | _ => none
 
-/-- a column with its storage layout tag (older cases carry none: native) -/
+/-- state of a component object: `N` (plain) or a list of `(jit)`, `(cats k)`, `(units (c…))`,
+`(old (c…))`, `(from k fn)` -/
+def compState? : Sexp → Option CompState
+  | .atom "N" => some {}
+  | .list items => items.foldlM (init := ({} : CompState)) fun st it =>
+    match it with
+    | .list [.atom "jit"] => some { st with jitter := true }
+    | .list [.atom "cats", k] => do some { st with cats := some (← k.toNat?) }
+    | .list [.atom "units", u] => do some { st with units := some (← u.toNats?) }
+    | .list [.atom "old", u] => do some { st with oldName := some (← u.toNats?) }
+    | .list [.atom "from", k, f] => do some { st with source := some (← k.toNat?, ← f.toNat?) }
+    | _ => none
+  | _ => none
+
+/-- state of the `Data` object: `N` or a list of `(label (c…))`, `(seed n)`, `(restored)`, `(wcs)`,
+`(extras ((kind pos)…))` -/
+def dataState? : Sexp → Option DataState
+  | .atom "N" => some {}
+  | .list items => items.foldlM (init := ({} : DataState)) fun st it =>
+    match it with
+    | .list [.atom "label", l] => do some { st with label := ← l.toNats? }
+    | .list [.atom "seed", n] => do some { st with seed := ← n.toNat? }
+    | .list [.atom "restored"] => some { st with restored := true }
+    | .list [.atom "wcs"] => some { st with wcs := true }
+    | .list [.atom "extras", .list xs] => do
+      let ps ← xs.mapM fun x => match x with
+        | .list [k, p] => do some (← k.toNat?, ← p.toNat?)
+        | _ => none
+      some { st with extras := ps }
+    | _ => none
+  | _ => none
+
+/-- a column with its storage layout tag and object state (older cases carry none: native, plain) -/
 def scol? : Sexp → Option StoredColumn
+  | .list [name, kind, der, cells, lay, st] => do
+    some ⟨← col? (.list [name, kind, der, cells]), ← layout? lay, ← compState? st⟩
   | .list [name, kind, der, cells, lay] => do
-    some ⟨← col? (.list [name, kind, der, cells]), ← layout? lay⟩
-  | e => do some ⟨← col? e, .native⟩
+    some ⟨← col? (.list [name, kind, der, cells]), ← layout? lay, {}⟩
+  | e => do some ⟨← col? e, .native, {}⟩
 
 def optBools? : Sexp → Option (Option (List Bool))
   | .atom "N" => some none
@@ -120,11 +154,13 @@ structure Case where
 
 def Case.d (c : Case) : Dataset := c.s.values
 
-def case? (fmt shape cols sel comps : Sexp) : Option Case := do
-  some ⟨← fmt? fmt, ⟨← shape.toNats?, ← (← cols.toList?).mapM scol?⟩, ← optBools? sel, ← optNats? comps⟩
+def case? (fmt shape cols sel comps : Sexp) (dst : Sexp := .atom "N") : Option Case := do
+  some ⟨← fmt? fmt, ⟨← shape.toNats?, ← (← cols.toList?).mapM scol?, ← dataState? dst⟩,
+        ← optBools? sel, ← optNats? comps⟩
 
 def laid (c : Case) : String :=
-  if c.s.cols.all fun x => x.layout == .native then "" else "-laid"
+  (if c.s.cols.all fun x => x.layout == .native then "" else "-laid") ++
+  (if c.s.stateful then "-stateful" else "")
 
 def branch (c : Case) (inQ inP : Bool) (r : Except Err (List LData)) : String :=
   let mode := match c.sel with
@@ -184,7 +220,7 @@ def judgeChain (c1 : Case) (fB : Format) (sel : Option (List Bool)) (comps : Opt
   let inQ1 := inQuantifierStored c1.fmt c1.s none none
   let inP1 := inDomainStored c1.fmt c1.s none none
   let r1 := roundTripStored c1.fmt c1.s none none
-  let brA := fmtName c1.fmt ++ "-to-" ++ fmtName fB
+  let brA := fmtName c1.fmt ++ "-to-" ++ fmtName fB ++ (if c1.s.stateful then "-stateful" else "")
   let wrap3 (a b c : Sexp) : Sexp := .list [.atom "chain", a, b, c]
   match pyout with
   | .list [.atom "chain", h1, ks, h2] =>
@@ -219,10 +255,10 @@ def judgeChain (c1 : Case) (fB : Format) (sel : Option (List Bool)) (comps : Opt
 
 def step (line : String) : String :=
   match Sexp.parse line with
-  | some (.list [.atom "sess", .list [fmt, shape, cols, sel, comps, cols2], pyout]) =>
+  | some (.list [.atom "sess", .list [fmt, shape, cols, sel, comps, cols2, dst], pyout]) =>
     -- session saved by reference: the restored values are the file's contents at restore time
     -- (the file was re-exported from `cols2` after saving), and nothing was stored inline
-    match case? fmt shape cols2 sel comps, case? fmt shape cols sel comps with
+    match case? fmt shape cols2 sel comps dst, case? fmt shape cols sel comps dst with
     | some c2, some c1 =>
       let q1 := inQuantifier c1.fmt c1.d c1.sel c1.comps
       let q2 := inQuantifier c2.fmt c2.d c2.sel c2.comps
@@ -232,8 +268,8 @@ def step (line : String) : String :=
         judge c2 inner (inl == .atom "F") fun x => .list [.atom "sess", .atom "F", x]
       | other => judge c2 other false fun x => .list [.atom "sess", .atom "F", x]
     | _, _ => bad "sess-args"
-  | some (.list [.atom "chain", .list [fa, shape, cols, fb, sel, comps], pyout]) =>
-    match case? fa shape cols (.atom "N") (.atom "N"), fmt? fb, optBools? sel, optNats? comps with
+  | some (.list [.atom "chain", .list [fa, shape, cols, fb, sel, comps, dst], pyout]) =>
+    match case? fa shape cols (.atom "N") (.atom "N") dst, fmt? fb, optBools? sel, optNats? comps with
     | some c1, some fB, some sel, some comps => judgeChain c1 fB sel comps pyout
     | _, _, _, _ => bad "chain-args"
   | some (.list [.atom "reg", _, pyout]) =>
@@ -250,9 +286,9 @@ def step (line : String) : String :=
       let impl : Sexp := .list [v, ofBool (intLike t), ofNats (asciiReplace t)]
       driverResult impl (pyout == impl) true true (if (parseNum t).isSome then "numeric" else "text")
     | none => bad "pnum-args"
-  | some (.list [.atom fam, .list [fmt, shape, cols, sel, comps], pyout]) =>
-    if fam == "tab" || fam == "img" || fam == "lay" then
-      match case? fmt shape cols sel comps with
+  | some (.list [.atom fam, .list [fmt, shape, cols, sel, comps, dst], pyout]) =>
+    if fam == "tab" || fam == "img" || fam == "lay" || fam == "st" then
+      match case? fmt shape cols sel comps dst with
       | some c => judge c pyout true id
       | none => bad "case-args"
     else bad "unknown-family"
